@@ -1,4 +1,7 @@
+#[cfg(feature = "verif")]
+use crate::verif::sync::RwLockReadGuard;
 use memmap2::MmapMut;
+#[cfg(not(feature = "verif"))]
 use parking_lot::RwLockReadGuard;
 
 use crate::{Database, Region};
@@ -47,6 +50,12 @@ impl Reader {
     pub fn unchecked_read(&self, offset: usize, len: usize) -> &[u8] {
         let start = self.start() + offset;
         let end = start + len;
+        #[cfg(feature = "verif")]
+        crate::verif::access(
+            crate::verif::AccessKind::Mmap,
+            self.mmap.as_ptr() as usize + start,
+            len,
+        );
         &self.mmap[start..end]
     }
 
